@@ -262,6 +262,27 @@ fn candidates(u: &Universe, rn: &RoomNode, m: usize, now: i64, r2: &RoomNode, n_
             x.auth_nodes[0].right_nodes.push(n);
             push(format!("attacker-signed-entry@{}", dn), "rights", x, Expect::Full);
         }
+        // the same entries in the group created last (a group the victim may never have seen: the checks of a new
+        // group in a known room are not those of a known group)
+        if rn.auth_nodes.len() > 1 {
+            let gi = rn.auth_nodes.len() - 1;
+            let aid = rn.auth_nodes[gi].node.id;
+            let mut x = rn.clone();
+            let n = user_node(u, m, true, m, d);
+            x.auth_nodes[gi].user_edges.push(edge(aid, "0.1", L_USERS, n.node.id, m, d));
+            x.auth_nodes[gi].user_nodes.push(n);
+            push(format!("attacker-signed-entry@{}", dn), "users@newest-group", x, Expect::Full);
+            let mut x = rn.clone();
+            let n = user_node(u, m, true, m, d);
+            x.auth_nodes[gi].user_admin_edges.push(edge(aid, "0.1", L_UADMIN, n.node.id, m, d));
+            x.auth_nodes[gi].user_admin_nodes.push(n);
+            push(format!("attacker-signed-entry@{}", dn), "user_admin@newest-group", x, Expect::Full);
+            let mut x = rn.clone();
+            let n = right_node("*", true, true, m, d);
+            x.auth_nodes[gi].right_edges.push(edge(aid, "0.1", L_RIGHTS, n.node.id, m, d));
+            x.auth_nodes[gi].right_nodes.push(n);
+            push(format!("attacker-signed-entry@{}", dn), "rights@newest-group", x, Expect::Full);
+        }
         // attacker authored group granting itself everything
         let mut x = rn.clone();
         let an = sys_node("0.1", json!({"32": "evil"}), m, d);
